@@ -1,14 +1,23 @@
 #!/bin/sh
 # usage: tools/confirm_mutation.sh <worktree> <i>
 # Confirms in the scratch worktree that mutation_i compiles, passes the 55 baseline tests, and that demo_i
-# passes without it and fails with it.
+# (an integration test demo_i.rs, or a script demo_i.sh) passes without it and fails with it.
 wt=$1; i=$2; cd "$wt" || exit 2
 export CARGO_NET_OFFLINE=true
-git checkout -q -- . ; rm -rf tests; mkdir -p tests
-if [ -f demo_$i.rs ]; then cp demo_$i.rs tests/demo_$i.rs; fi
-base=$(cargo test --offline --test demo_$i 2>&1 | grep -E "^test result" | head -1)
+rundemo() {
+  if [ -f demo_$i.sh ]; then
+    if bash demo_$i.sh >/dev/null 2>&1; then echo "script: PASS"; else echo "script: FAIL"; fi
+  else
+    rm -rf tests; mkdir -p tests; cp demo_$i.rs tests/demo_$i.rs
+    cargo test --offline --test demo_$i 2>&1 | grep -E "^test result" | head -1
+  fi
+}
+git checkout -q -- . ; rm -rf tests
+base=$(rundemo)
+git checkout -q -- . ; rm -rf tests
 git apply mutation_$i.diff || { echo "mutation_$i: does not apply"; exit 2; }
-mut_demo=$(cargo test --offline --test demo_$i 2>&1 | grep -E "^test result" | head -1)
+mut_demo=$(rundemo)
+rm -rf tests
 mut_suite=$(cargo test --offline --lib 2>&1 | grep -E "^test result" | head -1)
 git checkout -q -- . ; rm -rf tests
 echo "$wt mutation_$i :: demo without: [$base] :: demo with: [$mut_demo] :: suite with: [$mut_suite]"
